@@ -115,6 +115,7 @@ def scan(v, offset, info):
 
 
 _PRINTERS = {}
+_ABANDONED = []
 
 
 def evaluate(case):
@@ -135,6 +136,24 @@ def evaluate(case):
             _PRINTERS["json"] = P.PrettyPrinter(fmt_json=True)
             _PRINTERS["py"] = P.pp
             printer = _PRINTERS[mode]
+        if case.get("abandon") is not None:
+            # the same long-lived printer first fails on / is abandoned in the middle of a print of the same containers:
+            # a set inside the value makes the print raise; a broken-off line iteration leaves a generator behind
+            try:
+                if case["abandon"] == 0 and isinstance(value, (list, dict)) and value:
+                    bad = ([value, {1, 2}] if isinstance(value, list) else {"v": value, "s": {1, 2}})
+                    str(printer(bad, no_color=True))
+                else:
+                    it = iter(printer([value, [value, 0]] if case["abandon"] == 1 else value, no_color=True))
+                    next(it, None)
+                    if case["abandon"] == 2:
+                        del it
+                    else:
+                        _ABANDONED.append(it)
+                        del _ABANDONED[:-3]
+            except Exception:   # noqa
+                pass
+            info.add("print_failed_or_abandoned_before")
         if case.get("colored_first", True):
             colored = str(printer(value))
         else:
@@ -302,7 +321,8 @@ def st_case():
     def for_mode(mode):
         return st.one_of(st_value(mode), st_value(mode), st_threshold(mode), st_threshold(mode),
                          st_wraplist(mode), st_repeated(mode)).flatmap(
-            lambda v: st.booleans().map(lambda sh: {"mode": mode, "value": v, "share": sh}))
+            lambda v: st.booleans().map(lambda sh: {"mode": mode, "value": v, "share": sh}).flatmap(
+                lambda c: st.sampled_from([None, None, 0, 1, 2, 3]).map(lambda a: dict(c, abandon=a))))
     return st.sampled_from(["json", "py"]).flatmap(for_mode)
 
 
